@@ -27,7 +27,7 @@ REQUIRED = {'mon:evaluate.checked': 50, 'mon:evaluate_at.checked': 50, 'mon:eval
             'mon:get_truth_table.checked': 20, 'mon:get_gates_truth_table.checked': 20,
             'tables:operators': 1, 'tables:synthesis': 1, 'tables:arith': 1, 'tables:pattern': 1,
             'tables:tseytin': 1, 'tables:converters': 1, 'tables:format_parse': 1, 'tables:fix_gate_type': 16, 'twin_checked': 20,
-            'edited_circuits': 20, 'library_circuits': 50, 'requeried_after_edit': 10}
+            'edited_circuits': 20, 'library_circuits': 50, 'requeried_after_edit': 10, 'deep_circuits': 2}
 EXHAUSTIVE_WHEN = {}
 
 OPS16_NAMES = ['ALWAYS_FALSE', 'ALWAYS_TRUE', 'LNOT', 'LIFF', 'RNOT', 'RIFF', 'OR', 'NOR', 'AND', 'NAND', 'XOR', 'NXOR', 'GT', 'LT',
@@ -44,6 +44,8 @@ def shards(tier, seed):
             'max_arity': 4 if tier == 'quick' else 6} for _ in range(n - 1)]
     out.append({'kind': 'tables', 'budget_s': budget})
     out[0] = {'kind': 'library', 'count': 60 if tier == 'quick' else 1500, 'budget_s': budget}
+    out.append({'kind': 'deep', 'count': 3 if tier == 'quick' else 30, 'budget_s': budget,
+                'depths': netgen.DEEP_QUICK if tier == 'quick' else netgen.DEEP_THOROUGH})
     _out = out
     if tier == 'thorough':
         _out.append({'kind': 'suite', 'select': ['tests'], 'budget_s': 900})
@@ -57,7 +59,7 @@ class TooLarge(Exception):
 
 
 def _ref(circuit):
-    if len(circuit.inputs) > 12 or circuit.size > 400:
+    if len(circuit.inputs) > 12 or circuit.size * (1 << len(circuit.inputs)) > 400 * 4096:
         raise TooLarge()
     net = refsem.net_of(circuit)
     key = (tuple(net.inputs), tuple(net.outputs), tuple(sorted(net.gates.items())))
@@ -324,6 +326,11 @@ def drive(circuit, net, ctx, rng, exhaustive=True):
     return results
 
 
+def ctx_count(name):
+    if CUR.get('ctx') is not None:
+        CUR['ctx'].count(name)
+
+
 def check_case(case, ctx):
     import random
     CUR['case'] = case
@@ -394,6 +401,10 @@ def check_case(case, ctx):
 
 
 def gen_case(rng, spec):
+    if spec.get('kind') == 'deep':
+        ctx_count('deep_circuits')
+        return {'kind': 'random', 'shape': 'deep', 'net': netgen.deep_description(rng, spec['depths']),
+                'rseed': rng.getrandbits(32), 'shuffle': False}
     shape = rng.choice(netgen.SHAPES)
     net = netgen.rand_net(rng, shape=shape, max_in=6, max_g=spec.get('max_g', 14), max_arity=spec.get('max_arity', 4),
                           label_style=rng.choice(['plain', 'plain', 'digits', 'at', 'keyword', 'derived', 'odd']), p_wide=0.05)
@@ -575,7 +586,17 @@ def run_tables(ctx):
     # (d) subcircuit pattern simulation
     from cirbo.minimization import subcircuit as sc
     k = 0
-    for n in (2, 3):
+    for n in range(0, 11):
+        # leaf patterns of every cone width the pass may be asked for (cut_size is a free parameter): pattern j is
+        # the projection on variable j over all 2^n rows
+        pats = sc._generate_inputs_tt(n)
+        want = [sum(((i >> j) & 1) << i for i in range(1 << n)) for j in range(n)]
+        k += 1
+        ctx.case('leafpat:%d' % n, True)
+        if list(pats) != want:
+            bad = [j for j in range(n) if j >= len(pats) or pats[j] != want[j]]
+            tv('subcircuit._generate_inputs_tt', 'table', 'width %d: leaf patterns %r are not the projections' % (n, bad))
+    for n in (2, 3, 7):
         po = sc._PatternOperations(n)
         cols, mask, ns = refsem.canonical_columns(n)
         pats = sc._generate_inputs_tt(n)
@@ -583,7 +604,7 @@ def run_tables(ctx):
             tv('subcircuit._PatternOperations', 'mask', 'max_pattern %r != %r' % (po.max_pattern, mask))
         for name in netgen.SUPPORTED_MIN:
             arity = 1 if name == 'NOT' else 2
-            for ops in itertools.product(range(n), repeat=arity):
+            for ops in (itertools.product(range(n), repeat=arity) if n <= 3 else [(0, n - 1)[:arity], (n - 1, 0)[:arity], (5, 6)[:arity]]):
                 k += 1
                 got = po.eval_pattern([pats[i] for i in ops], name)
                 want = refsem.op(name, [pats[i] for i in ops], mask)
